@@ -263,7 +263,39 @@ func c41FoundLoops(c *Ctx, f *ssa.Function, acc []ssa.Instruction, principal *ss
 	})
 	c.check(cmp, "C41.membership", "CheckCert principal comparison", f, "ValidPrincipals entries are compared with the principal argument", "no comparison of a valid principal with the principal argument")
 	c.check(saConst == "source-address", "C41.membership", "CheckCert delegated critical option", f, "only source-address is delegated (enforced by serverAuthenticate, C33)", fmt.Sprintf("critical option %q is skipped by CheckCert", saConst))
-	// principals gate only when list non-empty: len(cert.ValidPrincipals) > 0
+	// principals are enforced whenever the list is non-empty: with
+	// len(ValidPrincipals) in {1,2,5} and nothing found, acceptance is unreachable;
+	// with an empty list the loop is skipped.
+	bad := ""
+	for _, ln := range []int64{0, 1, 2, 5} {
+		e := newEnv()
+		allInstrs(f, func(in ssa.Instruction) {
+			if call, ok := in.(*ssa.Call); ok && calleeName(&call.Call) == "builtin:len" {
+				if _, fld, _, ok := fieldOf(call.Call.Args[0]); ok && fld == "ValidPrincipals" {
+					e.bind(call, ln)
+				}
+			}
+			if p, ok := in.(*ssa.Phi); ok {
+				if b, ok := p.Type().Underlying().(*types.Basic); ok && b.Kind() == types.Bool {
+					if y, _ := boolEdges(p, true); len(y) > 0 {
+						e.bind(p, 0)
+					}
+				}
+			}
+		})
+		cut := e.cuts(f)
+		r := reach([]*ssa.BasicBlock{f.Blocks[0]}, cut)
+		got := false
+		for _, t := range acc {
+			if r[t.Block()] {
+				got = true
+			}
+		}
+		if got != (ln == 0) {
+			bad = fmt.Sprintf("len(ValidPrincipals)=%d and no principal matches: acceptance reachable=%v", ln, got)
+		}
+	}
+	c.check(bad == "", "C41.membership", "CheckCert principals enforced when listed", f, "a non-empty principal list always constrains the principal", bad)
 }
 
 func c41Window(c *Ctx, f *ssa.Function, acc []ssa.Instruction) {
